@@ -9,14 +9,19 @@ from dissect.cobaltstrike.beacon import BeaconConfig
 from dissect.cobaltstrike.guardrails import find_xor_key_candidates
 
 comp = Component("guardrails-recovery-real-code",
-                 "key lengths 2..256 (all in thorough, a seeded sample of 14 in quick) x guard-option subsets x 2 positions x raw/XorEncoded; "
+                 "key lengths 2..256 (all in thorough, a seeded sample of 14 in quick; keys over all byte values incl. NUL and the mask byte 0x2e) x guard-option subsets x 2 positions x raw/XorEncoded; "
                  "recovered configuration, key (up to its period), guard options and offsets compared with the generator's")
 heur = Component("find_xor_key_candidates-safety", "random and structured inputs up to 7000 bytes: yields byte strings, no exception")
 lengths = list(range(2, 257)) if TIER == "thorough" else sorted(set([2, 3, 4, 16, 255, 256] + [rng.randrange(2, 257) for _ in range(8)]))
 subsets = [(5,), (6,), (7,), (8,), (5, 6), (5, 6, 7, 8)]
 cfg = bytes.fromhex("00010001000200080002000100020050000300020004000003e8") + bytes(8)
 for L in lengths:
-    key = bytes(rng.randrange(1, 256) for _ in range(L))
+    key = bytearray(rng.randrange(1, 256) for _ in range(L))
+    # "any environmental key": a third of the keys contain NUL bytes, a third the byte of the configuration mask (0x2e)
+    if L % 3 != 0 and L > 2:
+        for _ in range(rng.randrange(1, 4)):
+            key[rng.randrange(L)] = 0x00 if L % 3 == 1 else 0x2E
+    key = bytes(key)
     if len(set(key)) == 1:
         key = key[:-1] + bytes([key[-1] ^ 1])
     opts = subsets[L % len(subsets)]
